@@ -58,16 +58,21 @@ impl fmt::Display for InstructionOps {
 
 impl InstructionOps {
     fn get_r8(&self, constants: &dyn Context) -> Result<Reg8, Error> {
-        match self {
-            Self::R8(reg8) => Ok(*reg8),
+        let reg8 = match self {
+            Self::R8(reg8) => *reg8,
             Self::E(Expr::Ident(name)) => match constants.get_def(name).map(|x| x.clone()) {
-                Some(reg8) => Ok(reg8),
+                Some(reg8) => reg8,
                 None => bail!("No found {} in .defs", name),
             },
             _ => {
                 bail!("Argument must be R0-R16");
             }
+        };
+        // the reduced cores have the upper half of the register file only
+        if reg8.number() < 16 && constants.get_device().is_avr8l() {
+            bail!("{} does not exist on the current device (r16 - r31)", reg8);
         }
+        Ok(reg8)
     }
 
     fn get_expr(&self) -> Result<Expr, Error> {
